@@ -248,6 +248,22 @@ func coerceScalarJSON(name string, v any) (any, error) {
 			return n, nil
 		}
 		return nil, fmt.Errorf("%v is not an Int", v)
+	case "Float":
+		switch n := v.(type) {
+		case json.Number:
+			f, err := strconv.ParseFloat(n.String(), 64)
+			if err != nil {
+				return nil, fmt.Errorf("%s is not a Float", n)
+			}
+			return f, nil
+		case float64:
+			return n, nil
+		case int:
+			return float64(n), nil
+		case int64:
+			return float64(n), nil
+		}
+		return nil, fmt.Errorf("%v is not a Float", v)
 	case "String":
 		if s, ok := v.(string); ok {
 			return s, nil
@@ -333,6 +349,14 @@ func (x *executor) coerceLiteral(t *ast.Type, v *ast.Value, vars map[string]any)
 					return nil, err
 				}
 				return i, nil
+			}
+		case "Float":
+			if v.Kind == ast.IntValue || v.Kind == ast.FloatValue {
+				f, err := strconv.ParseFloat(v.Raw, 64)
+				if err != nil {
+					return nil, err
+				}
+				return f, nil
 			}
 		case "String":
 			if v.Kind == ast.StringValue || v.Kind == ast.BlockValue {
@@ -697,6 +721,8 @@ func canon(b *strings.Builder, v any) {
 		b.WriteString(strconv.Quote(t))
 	case int64:
 		b.WriteString(strconv.FormatInt(t, 10))
+	case float64:
+		b.WriteString(strconv.FormatFloat(t, 'g', -1, 64) + "f")
 	case bool:
 		b.WriteString(strconv.FormatBool(t))
 	case json.Number:
